@@ -138,10 +138,23 @@ type caseRun struct {
 	reflectSid    uint32 // UDP reflect: the session whose own datagram was fed back
 	closeSeen     bool   // a close request of that session has been seen after the reflection
 	reflectClosed bool   // ... and the first one came from the side that received the reflected datagram
-	ucases        []string
-	uimpls        []string
-	now           int64
-	panicked      string
+	// duplicate family (UDP): a second copy of the first datagram of one segment kind
+	dupHeld   []byte
+	dupWait   int
+	dupSid    uint32
+	dupEvents map[uint32][]string // per session id: what reached the receiving session in direction mut.dir, in order
+	// cross-connection family: sessions 0.. run one after the other, each on its own client mux
+	muxes    []*protocol.Mux
+	cross    bool
+	crossA   *connState     // TCP: the connection of session 0 (recorded, not mutated)
+	hdrSid   map[int]uint32 // script index -> session id seen on the wire (from the case header in the first payload)
+	crossDg  [][]byte       // UDP: the downstream datagrams of the first client flow
+	crossBox []box
+	flows    []string // UDP: client addresses in order of appearance
+	ucases   []string
+	uimpls   []string
+	now      int64
+	panicked string
 }
 
 type connState struct {
@@ -309,7 +322,8 @@ func (e *env) newCaseSz(mut *mutation, sizes [][2][]int) *caseRun {
 	id := e.nextID
 	e.nextID++
 	cr := &caseRun{id: id, p: e.p, mut: mut, connState: &connState{victim: true}, sidIdx: map[uint32]int{},
-		dgBySeq: [2]map[string][]byte{{}, {}}, dgBoxes: [2]map[string][]box{{}, {}}}
+		dgBySeq: [2]map[string][]byte{{}, {}}, dgBoxes: [2]map[string][]box{{}, {}},
+		dupEvents: map[uint32][]string{}, hdrSid: map[int]uint32{}}
 	for i, sz := range sizes {
 		var sc script
 		off := 0
@@ -345,12 +359,18 @@ func sum(a []int) int {
 }
 
 // runClient runs the client side of all sessions of cr on mux m; returns when every session ended.
-func (e *env) runClient(cr *caseRun, m *protocol.Mux, hook func()) {
+func (e *env) runClient(cr *caseRun, m0 *protocol.Mux, hook func()) {
 	var wg sync.WaitGroup
 	for i := range cr.scripts {
 		wg.Add(1)
+		m := m0
+		if cr.muxes != nil {
+			m = cr.muxes[i]
+		}
+		one := make(chan struct{})
 		go func(i int) {
 			defer wg.Done()
+			defer close(one)
 			defer func() {
 				if r := recover(); r != nil {
 					cr.mu.Lock()
@@ -400,6 +420,10 @@ func (e *env) runClient(cr *caseRun, m *protocol.Mux, hook func()) {
 			res.done = true
 			cr.mu.Unlock()
 		}(i)
+		if cr.cross {
+			<-one // one connection after the other
+			continue
+		}
 		// sessions start in order so that segment indexes are comparable between runs
 		time.Sleep(2 * time.Millisecond)
 	}
@@ -435,6 +459,15 @@ func (e *env) runCaseOn(cr *caseRun, hook func(cr *caseRun)) *caseRun {
 			if cr.nconn > 0 {
 				cs = &connState{}
 			}
+			if cr.cross && cr.mut.kind != "session-ids" {
+				// connection 0 is recorded, connection 1 is the victim
+				switch cr.nconn {
+				case 0:
+					cs = cr.crossA
+				case 1:
+					cs = cr.connState
+				}
+			}
 			cr.nconn++
 			cr.mu.Unlock()
 			return &simnet.PipePolicy{Transform: func(off int64, d []byte) []byte { return e.tcpMitm(cr, cs, 0, d) }},
@@ -451,20 +484,40 @@ func (e *env) runCaseOn(cr *caseRun, hook func(cr *caseRun)) *caseRun {
 			defer cr.mu.Unlock()
 			k := cnt[dir]
 			cnt[dir]++
+			if cr.cross {
+				cl := d.Src
+				if dir == 1 {
+					cl = d.Dst
+				}
+				return e.udpCross(cr, dir, cl, d.Data)
+			}
 			return e.udpMitm(cr, dir, k, d.Data)
 		}
 	}
-	m, err := e.rg.NewClient(userA, passA, mkTP(e.p, int32(cr.id)+7), "")
-	if err != nil {
-		R.Fail("rig-start", err.Error(), e.p.name)
-		return cr
+	var m *protocol.Mux
+	if cr.muxes == nil {
+		var err error
+		m, err = e.rg.NewClient(userA, passA, mkTP(e.p, int32(cr.id)+7), "")
+		if err != nil {
+			R.Fail("rig-start", err.Error(), e.p.name)
+			return cr
+		}
 	}
 	var h func()
 	if hook != nil {
 		h = func() { hook(cr) }
 	}
 	e.runClient(cr, m, h)
-	closeMux(m)
+	if m != nil {
+		closeMux(m)
+	}
+	closed := map[*protocol.Mux]bool{}
+	for _, x := range cr.muxes {
+		if !closed[x] {
+			closed[x] = true
+			closeMux(x)
+		}
+	}
 	nw.TCPPolicy, nw.Fate = nil, nil
 	e.mu.Lock()
 	delete(e.cases, cr.id)
@@ -637,12 +690,16 @@ func (e *env) tcpMitm1(cr *caseRun, cs *connState, dir int, data []byte) []byte 
 		}
 		cs.rawSegs[dir] = append(cs.rawSegs[dir], append([]byte(nil), data...))
 		cs.nonceAfter[dir] = append(cs.nonceAfter[dir], append([]byte(nil), cs.nextNonce[dir]...))
-		if dir == 0 && len(seg.Payload) >= hdrLen && binary.BigEndian.Uint32(seg.Payload[:4]) == cr.id {
-			if _, seen := cr.sidIdx[seg.Meta.SessionID]; !seen && int(seg.Payload[4]) < len(cr.sids) {
-				cr.sidIdx[seg.Meta.SessionID] = int(seg.Payload[4])
-				if cs.victim {
-					cr.sids[int(seg.Payload[4])] = seg.Meta.SessionID
-				}
+		if dir == 0 && len(seg.Payload) >= hdrLen && binary.BigEndian.Uint32(seg.Payload[:4]) == cr.id && int(seg.Payload[4]) < len(cr.sids) {
+			i := int(seg.Payload[4])
+			if _, have := cr.hdrSid[i]; !have {
+				cr.hdrSid[i] = seg.Meta.SessionID
+			}
+			if _, seen := cr.sidIdx[seg.Meta.SessionID]; !seen {
+				cr.sidIdx[seg.Meta.SessionID] = i
+			}
+			if cs.victim && cr.sids[i] == 0 {
+				cr.sids[i] = seg.Meta.SessionID
 			}
 		}
 	} else {
@@ -659,6 +716,27 @@ func (e *env) tcpMitm1(cr *caseRun, cs *connState, dir int, data []byte) []byte 
 		h := cs.held
 		cs.held = nil
 		return append(append([]byte(nil), data...), h...)
+	}
+	if mut != nil && strings.HasPrefix(mut.kind, "cross-") && cr.cross {
+		// the downstream bytes of connection A (whole, or from a segment boundary behind a rewritten nonce header) in
+		// place of this connection's downstream bytes
+		if dir != 1 || cr.fired {
+			return data
+		}
+		a := cr.crossA
+		var out []byte
+		if mut.pos == 0 {
+			out = append(out, a.orig[1]...)
+		} else if len(a.rawSegs[1]) > mut.pos {
+			out = append(out, a.nonceAfter[1][mut.pos-1]...)
+			for _, x := range a.rawSegs[1][mut.pos:] {
+				out = append(out, x...)
+			}
+		} else {
+			return data
+		}
+		cr.fired, cr.lenChange, cs.cut = true, true, true
+		return out
 	}
 	if mut == nil || dir != mut.dir || cr.fired || !aligned || idx < mut.from {
 		return data
@@ -844,6 +922,9 @@ func (e *env) udpMitm(cr *caseRun, dir, k int, data []byte) []simnet.Delivery {
 		}
 		return []simnet.Delivery{{}}
 	}
+	if mut != nil && mut.kind == "dup" {
+		return e.udpDup(cr, dir, k, data, &seg, l)
+	}
 	if mut != nil && mut.kind == "reflect" && cr.fired && !cr.closeSeen && seg.Meta.SessionID == cr.reflectSid &&
 		(seg.Meta.Proto == rc.CloseSessionRequest || seg.Meta.Proto == rc.CloseSessionResponse) {
 		// who ends the session after the reflection: the receiver of the reflected datagram sends in direction 1-mut.dir
@@ -914,6 +995,159 @@ func (e *env) udpMitm(cr *caseRun, dir, k int, data []byte) []simnet.Delivery {
 	cr.ucases = append(cr.ucases, c)
 	cr.uimpls = append(cr.uimpls, i)
 	return []simnet.Delivery{{Data: out}}
+}
+
+func kindOf(p uint8) string {
+	switch p {
+	case rc.OpenSessionRequest:
+		return "openreq"
+	case rc.OpenSessionResponse:
+		return "openresp"
+	case rc.CloseSessionRequest:
+		return "closereq"
+	case rc.CloseSessionResponse:
+		return "closeresp"
+	case rc.AckClientToServer, rc.AckServerToClient:
+		return "ack"
+	}
+	return "data"
+}
+
+var segKinds = []string{"openreq", "openresp", "data", "ack", "closereq", "closeresp"}
+
+func eventOf(seg *rc.Segment) string {
+	switch kindOf(seg.Meta.Proto) {
+	case "closereq", "closeresp":
+		return "C"
+	case "ack":
+		return "K"
+	}
+	return fmt.Sprintf("A:%d:%s", seg.Meta.Seq, hx(seg.Payload))
+}
+
+// udpDup: the first datagram of segment kind mut.class in direction mut.dir is delivered a second time: at once
+// (pos 0), after 1 later datagram of the direction (pos 1), after 4 later ones (pos 2).  Nothing is modified.
+func (e *env) udpDup(cr *caseRun, dir, k int, data []byte, seg *rc.Segment, l layout) []simnet.Delivery {
+	mut := cr.mut
+	if dir != mut.dir {
+		return []simnet.Delivery{{}}
+	}
+	sid := seg.Meta.SessionID
+	cr.dupEvents[sid] = append(cr.dupEvents[sid], eventOf(seg))
+	emit := func(d []byte, sg *rc.Segment) {
+		ll := layoutOf(sg, len(d), true)
+		c, i := udpCase(tagOf(cr, false), boxesOf(sg, d, ll, sg.Nonce, sg.Nonce), d)
+		cr.ucases = append(cr.ucases, c)
+		cr.uimpls = append(cr.uimpls, i)
+	}
+	if cr.dupHeld != nil {
+		cr.dupWait--
+		if cr.dupWait <= 0 {
+			h := cr.dupHeld
+			cr.dupHeld = nil
+			if hs, _, err := rc.DecodeDatagram(keysOf(userA, passA, time.Now()), h); err == nil {
+				cr.dupEvents[cr.dupSid] = append(cr.dupEvents[cr.dupSid], eventOf(&hs))
+				emit(h, &hs)
+			}
+			cr.genuine = true
+			return []simnet.Delivery{{}, {Data: h}}
+		}
+		return []simnet.Delivery{{}}
+	}
+	if !cr.fired && kindOf(seg.Meta.Proto) == mut.class {
+		cr.fired = true
+		cr.dupSid = sid
+		cp := append([]byte(nil), data...)
+		if mut.pos == 0 {
+			cr.dupEvents[sid] = append(cr.dupEvents[sid], eventOf(seg))
+			emit(cp, seg)
+			cr.genuine = true
+			return []simnet.Delivery{{}, {Data: cp}}
+		}
+		cr.dupHeld, cr.dupWait = cp, map[int]int{1: 1, 2: 4}[mut.pos]
+	}
+	return []simnet.Delivery{{}}
+}
+
+// udpCross: the downstream datagrams of the first client flow are recorded; when the second flow's first downstream
+// datagram passes, the recorded ones (all, or those from index pos on) are delivered to the second client before it.
+func (e *env) udpCross(cr *caseRun, dir int, client string, data []byte) []simnet.Delivery {
+	flow := -1
+	for i, f := range cr.flows {
+		if f == client {
+			flow = i
+		}
+	}
+	if flow < 0 {
+		cr.flows = append(cr.flows, client)
+		flow = len(cr.flows) - 1
+	}
+	seg, _, err := rc.DecodeDatagram(keysOf(userA, passA, time.Now()), data)
+	if err == nil && dir == 0 && len(seg.Payload) >= hdrLen && binary.BigEndian.Uint32(seg.Payload[:4]) == cr.id && int(seg.Payload[4]) < len(cr.sids) {
+		i := int(seg.Payload[4])
+		if _, have := cr.hdrSid[i]; !have {
+			cr.hdrSid[i] = seg.Meta.SessionID
+			cr.sids[i] = seg.Meta.SessionID
+		}
+	}
+	if cr.mut.kind == "session-ids" || dir != 1 {
+		return []simnet.Delivery{{}}
+	}
+	if flow == 0 {
+		cr.crossDg = append(cr.crossDg, append([]byte(nil), data...))
+		return []simnet.Delivery{{}}
+	}
+	if flow != 1 || cr.fired || len(cr.crossDg) <= cr.mut.pos {
+		return []simnet.Delivery{{}}
+	}
+	cr.fired = true
+	var out []simnet.Delivery
+	for j, d := range cr.crossDg[cr.mut.pos:] {
+		out = append(out, simnet.Delivery{Data: d})
+		if j < 3 && cr.mut.kind == "cross-conn" {
+			if sg, _, err := rc.DecodeDatagram(keysOf(userA, passA, time.Now()), d); err == nil {
+				c, i := udpCase(tagOf(cr, false), boxesOf(&sg, d, layoutOf(&sg, len(d), true), sg.Nonce, sg.Nonce), d)
+				cr.ucases = append(cr.ucases, c)
+				cr.uimpls = append(cr.uimpls, i)
+			}
+		}
+	}
+	return append(out, simnet.Delivery{})
+}
+
+// runCross: two (or more) client muxes created back to back - in the same virtual second -, one session each, one after
+// the other.  kind cross-conn: same user; cross-user: the second client is another user; session-ids: three muxes of
+// one user with two dials each, nothing spliced (the ids on the wire must differ between muxes).
+func (e *env) runCross(kind string, pos int) *caseRun {
+	sz := e.p.sizes[0]
+	n := 2
+	if kind == "session-ids" {
+		sz = [2][]int{{64}, {16}}
+		n = 6
+	}
+	var sizes [][2][]int
+	for i := 0; i < n; i++ {
+		sizes = append(sizes, sz)
+	}
+	cr := e.newCaseSz(&mutation{dir: 1, class: "boundary", kind: kind, pos: pos}, sizes)
+	cr.cross, cr.crossA = true, &connState{}
+	mk := func(u, pw, ip string) *protocol.Mux {
+		m, err := e.rg.NewClient(u, pw, mkTP(e.p, int32(cr.id)+7), ip)
+		if err != nil {
+			panic(err)
+		}
+		return m
+	}
+	switch kind {
+	case "session-ids":
+		a, b, c := mk(userA, passA, "10.0.1.1"), mk(userA, passA, "10.0.1.2"), mk(userA, passA, "10.0.1.3")
+		cr.muxes = []*protocol.Mux{a, b, c, a, b, c}
+	case "cross-user":
+		cr.muxes = []*protocol.Mux{mk(userA, passA, "10.0.1.1"), mk(userB, passB, "10.0.1.2")}
+	default:
+		cr.muxes = []*protocol.Mux{mk(userA, passA, "10.0.1.1"), mk(userA, passA, "10.0.1.2")}
+	}
+	return e.runCaseOn(cr, nil)
 }
 
 var udpKept = map[*caseRun]*[2][][]byte{}
@@ -1074,6 +1308,24 @@ func (e *env) judge(cr *caseRun) {
 	if cr.panicked != "" {
 		rep("panic", cr.panicked)
 	}
+	if cr.cross && cr.mut.kind != "cross-user" {
+		// the premise of C04_tcp_cross_connection_splice_refused: live session ids of one user are distinct; ids of
+		// muxes created in the same second must not repeat
+		cr.mu.Lock()
+		seen := map[uint32]int{}
+		for i := 0; i < len(cr.scripts); i++ {
+			sid, ok := cr.hdrSid[i]
+			if !ok {
+				continue
+			}
+			if j, dup := seen[sid]; dup && cr.muxes[i] != cr.muxes[j] {
+				rep("session-id-repeats-across-muxes", fmt.Sprintf("%s: two client muxes of one user created in the same second drew the same session id %d (sessions %d and %d)", p.transport, sid, j, i))
+			}
+			seen[sid] = i
+		}
+		cr.mu.Unlock()
+		R.Count(p.transport + ":session-ids-compared")
+	}
 	complete := true
 	for i, sc := range cr.scripts {
 		cr.mu.Lock()
@@ -1091,6 +1343,12 @@ func (e *env) judge(cr *caseRun) {
 				}
 				if cr.gap {
 					sig = "udp-released-across-a-missing-segment"
+				}
+				if cr.mut != nil && cr.mut.kind == "dup" {
+					sig = "replayed-copy-changes-what-the-application-reads"
+				}
+				if cr.cross {
+					sig = "stream-of-another-connection-read-by-application"
 				}
 				if cr.mut != nil && cr.mut.kind == "skiphead" {
 					sig = "tcp-nonce-header-rewrite-skips-leading-segments"
@@ -1167,6 +1425,9 @@ func (e *env) emitE(cr *caseRun) {
 	tbl := append(append([]box(nil), cr.boxes[dir]...), e.donorBoxesFor(m.kind, dir)...)
 	if m.kind == "reflect" {
 		tbl = append(tbl, cr.boxes[1-dir]...) // one key for both directions
+	}
+	if m.kind == "cross-conn" {
+		tbl = append(tbl, cr.crossA.boxes[dir]...) // the other connection of the same user: same key
 	}
 	fmt.Fprintf(&sb, "E %s %d %s %s %d", tagOf(cr, cr.lenChange), cr.now, tableStr(tbl), hx(cr.sent[dir]), len(cr.sids))
 	onVictim := map[int]bool{}
@@ -1481,6 +1742,68 @@ func main() {
 					R.Count("udp:e2e:gap-close")
 					R.Distinct(fmt.Sprintf("%s/seq%d", tagOf(cr, false), q))
 				}
+			}
+		}
+		// a second copy of an authentic datagram: every segment kind x direction x delay position
+		if p.transport == "udp" {
+			for dir := 0; dir < 2; dir++ {
+				for _, kd := range segKinds {
+					for pos := 0; pos < 3; pos++ {
+						cr := e.runCase(&mutation{dir: dir, from: 0, class: kd, kind: "dup", pos: pos}, nil)
+						if !cr.fired {
+							R.Count("mutation-not-fired:dup/" + kd)
+							continue
+						}
+						e.judge(cr)
+						R.Count("udp:e2e:dup")
+						R.Count("udp:dup:" + kd)
+						R.Distinct(tagOf(cr, false))
+						for i := range cr.ucases {
+							R.Case(cr.ucases[i], cr.uimpls[i])
+						}
+						cr.mu.Lock()
+						idx := -1
+						for i, sid := range cr.sids {
+							if sid == cr.dupSid {
+								idx = i
+							}
+						}
+						if idx >= 0 {
+							got := cr.srv[idx].read
+							if dir == 1 {
+								got = cr.cli[idx].read
+							}
+							evs := cr.dupEvents[cr.dupSid]
+							R.Case(fmt.Sprintf("G %s %d %s", tagOf(cr, false), len(evs), strings.Join(evs, " ")), fmt.Sprintf("%d:%x", len(got), md5.Sum(got)))
+						}
+						if cr.dupHeld != nil {
+							R.Count("udp:dup:copy-not-delivered")
+						}
+						cr.mu.Unlock()
+					}
+				}
+			}
+		}
+		// the downstream traffic of another connection (clients created in the same second) fed to a client
+		for _, x := range []struct {
+			kind string
+			pos  int
+		}{{"cross-conn", 0}, {"cross-conn", 1}, {"cross-conn", 2}, {"cross-user", 0}, {"session-ids", 0}} {
+			cr := e.runCross(x.kind, x.pos)
+			e.judge(cr)
+			R.Count(p.transport + ":e2e:" + x.kind)
+			if !cr.fired {
+				if x.kind != "session-ids" {
+					R.Count("mutation-not-fired:" + x.kind)
+				}
+				continue
+			}
+			R.Distinct(tagOf(cr, true))
+			if p.transport == "tcp" && x.kind == "cross-conn" {
+				e.emitE(cr)
+			}
+			for i := range cr.ucases {
+				R.Case(cr.ucases[i], cr.uimpls[i])
 			}
 		}
 		// the model witnesses
